@@ -437,3 +437,27 @@ def indep_native(rng, T, bound):
         L.append("prog %d showbind" % i)
     L += ["run noref", "init 60", "load 60 0 bind=0 synthetic pack:2 numa:1 core:2 pu:2", "cons 60 exportxml", "destroy 60", "cons 63 exportxml", "destroy 63"]
     return "\n".join(L) + "\n"
+
+
+# ---------------------------------------------------------------------------------------------
+# HWLOC_COMPONENTS set to a multi-entry list (forced names, exclusions, stop): every hwloc_topology_load parses it in
+# hwloc_disc_components_enable_others; threads loading DISTINCT topologies at the same time must each get the
+# backends a single-threaded process gets (kind indep-faulty: single-threaded fresh reference, ASan, TSan)
+
+COMPONENT_LISTS = [("no_os,-x86,-linux,stop", "native"), ("synthetic,-linux,-x86,stop", "synthetic pack:2 numa:1 core:2 pu:2"),
+                   ("-x86,-pci,no_os,-linux,stop", "native"), ("xml,-linux,-x86,-pci,stop", None)]
+
+
+def indep_components(rng, repo, docs, T, rounds):
+    comps, src = rng.choice(COMPONENT_LISTS)
+    if src is None:
+        src = "xml " + docs[sorted(docs)[0]]["plain"]
+    L = ["# kind: indep-faulty", "env HWLOC_COMPONENTS " + comps,
+         "init 63", "load 63 0 bind=0 " + src, "cons 63 exportxml"]
+    L.append("threads %d" % T)
+    for i in range(T):
+        for r in range(rounds):
+            L += ["prog %d init %d" % (i, i), "prog %d load %d 0 bind=0 %s" % (i, i, src), "prog %d cons %d exportxml" % (i, i),
+                  "prog %d cons %d traverse" % (i, i), "prog %d destroy %d" % (i, i)]
+    L += ["run noref", "cons 63 exportxml", "destroy 63"]
+    return "\n".join(L) + "\n"
